@@ -1467,6 +1467,10 @@ pub fn run_any(prog: &Program) -> RunOut {
         Pay::Z0 => run_program::<Z0>(prog),
         Pay::ZA => run_program::<ZA>(prog),
         Pay::P1 => run_program::<P1>(prog),
+        Pay::P3 => run_program::<P3>(prog),
+        Pay::P5 => run_program::<P5>(prog),
+        Pay::P6 => run_program::<P6>(prog),
+        Pay::P7 => run_program::<P7>(prog),
         Pay::P4 => run_program::<P4>(prog),
         Pay::P8 => run_program::<P8>(prog),
         Pay::P16 => run_program::<P16>(prog),
